@@ -248,6 +248,8 @@ class Run:
             jobs += [(c2, l["harness"], {"timeout": l.get("timeout", timeout)}) for (l, _, c2) in pre]
             metas.append((crate, lemmas, pre, len(all_jobs), len(jobs)))
             all_jobs += jobs
+        if parallel is None and self.tier == "thorough":      # deeper bounds: fewer concurrent CBMC processes (12 GB address space each, 62 GB machine)
+            parallel = int(os.environ.get("VERIF_JOBS", "5"))
         results = kani_run.run_all(all_jobs, parallel)
         if not hasattr(self, "_pre"):
             self._pre = {}
